@@ -146,7 +146,41 @@ def run_translators():
 
 
 # ----------------------------------------------------------------------------------------------- coq
+COQPROJECT_HEAD = """-Q . Romea
+-arg -w -arg -notation-overridden,-deprecated-hint-without-locality,-deprecated-instance-without-locality,-ambiguous-paths,-unused-intro-pattern
+"""
+
+EXTRACT_HEAD = """(* GENERATED by lib/vcommon.py (gen_extract): extraction of every executable model coq/*Model.v to OCaml.
+   Directives: ExtrOcamlBasic only (bool, option, list, prod, unit, sumbool -> OCaml natives).
+   Z / positive / N / nat stay the extracted inductive types.  No Extract Constant / Extract Inductive of our own. *)
+From Coq Require Import Extraction ExtrOcamlBasic ZArith.
+"""
+
+
+def gen_coqproject():
+    """_CoqProject lists every .v file of the development (coqdep orders them); regenerated when the set changes"""
+    files = sorted(f for f in os.listdir(COQ) if f.endswith(".v") and f != "Extract.v")
+    files += sorted("gen/" + f for f in os.listdir(os.path.join(COQ, "gen")) if f.endswith(".v"))
+    text = COQPROJECT_HEAD + "\n".join(files) + "\n"
+    p = os.path.join(COQ, "_CoqProject")
+    if not os.path.exists(p) or open(p).read() != text:
+        open(p, "w").write(text)
+
+
+def gen_extract():
+    mods = sorted(f[:-2] for f in os.listdir(COQ) if f.endswith("Model.v"))
+    text = EXTRACT_HEAD + "From Romea Require Num %s.\nExtraction Language OCaml.\n" % " ".join(mods)
+    text += ("Separate Extraction Num %s BinInt.Z.add BinInt.Z.mul BinInt.Z.opp BinInt.Z.sub BinInt.Z.div BinInt.Z.modulo\n"
+             "  BinInt.Z.ltb BinInt.Z.leb BinInt.Z.eqb BinInt.Z.of_nat BinInt.Z.to_nat BinInt.Z.of_N BinInt.Z.to_N BinInt.Z.quot BinInt.Z.rem.\n"
+             % " ".join(mods))
+    p = os.path.join(COQ, "Extract.v")
+    if not os.path.exists(p) or open(p).read() != text:
+        open(p, "w").write(text)
+    return [os.path.join(COQ, m + ".vo") for m in mods]
+
+
 def coq_makefile():
+    gen_coqproject()
     mk = os.path.join(COQ, "Makefile")
     if newer([os.path.join(COQ, "_CoqProject")], mk):
         rc, o, e = sh(["coq_makefile", "-f", "_CoqProject", "-o", "Makefile"], cwd=COQ, timeout=120)
@@ -260,6 +294,12 @@ def grep_forbidden():
 def build_ocaml(drivers=None, timeout=900):
     """extract the models and build the OCaml drivers into build/ocaml; returns (ok, log)"""
     os.makedirs(OBUILD, exist_ok=True)
+    with Lock("coq"):
+        coq_makefile()
+        vos = gen_extract()
+        rc, o, e = sh(["make", "-k", "-j%d" % NCPU] + [os.path.relpath(v, COQ) for v in vos], cwd=COQ, timeout=timeout)
+        if rc != 0:
+            return False, "model .vo build failed:\n" + (o + e)[-3000:]
     with Lock("ocaml"):
         srcs = [os.path.join(COQ, "Extract.v")] + [os.path.join(COQ, f) for f in os.listdir(COQ) if f.endswith(".vo")]
         srcs += [os.path.join(COQ, "gen", f) for f in os.listdir(os.path.join(COQ, "gen")) if f.endswith(".vo")]
@@ -381,12 +421,14 @@ def run_lines(exe, case_lines, timeout=600, args=()):
 
 # ----------------------------------------------------------------------------------------------- known findings
 def load_known_findings(pid):
-    p = os.path.join(VERIF, "known_findings.json")
-    if not os.path.exists(p):
-        return []
-    with open(p) as f:
-        data = json.load(f)
-    return [k for k in data.get("findings", []) if k.get("property") == pid]
+    """entries of known_findings.json (and known_findings.d/*.json) for this property; never written at run time"""
+    import glob
+    out = []
+    for p in [os.path.join(VERIF, "known_findings.json")] + sorted(glob.glob(os.path.join(VERIF, "known_findings.d", "*.json"))):
+        if os.path.exists(p):
+            with open(p) as f:
+                out += [k for k in json.load(f).get("findings", []) if k.get("property") == pid]
+    return out
 
 
 # ----------------------------------------------------------------------------------------------- main flow
